@@ -180,3 +180,44 @@ pub fn gen_resp(ctx: &Ctx) {
     }
     out.finish();
 }
+
+// ---------------------------------------------------------------------------------------------
+// stream `dateclock` (C18): the real clock path (no test clock).  `get_date_now` / `get_date_now_uncached` are polled
+// for the given time, each call bracketed by two precise SystemTime readings; the distinct (before, after, date)
+// triples are reported and the oracle requires every date to be the formatted second s for some before-1 <= s <= after
+// ("the current second", never ahead of the clock, never more than a second behind).  Seed C18-g rounded a coarse
+// reading in the last 10 ms of a second up to the next second: only a poll across a second boundary sees that.
+pub fn run_clock(case: &str) -> String {
+    crate::util::note_current(case);
+    let ms: u64 = case.split(' ').nth(1).unwrap().parse().unwrap();
+    let h = std::thread::spawn(move || {
+        khttp::verif::set_test_clock(None);
+        let secs = || std::time::SystemTime::now().duration_since(std::time::UNIX_EPOCH).unwrap().as_secs();
+        let t0 = std::time::Instant::now();
+        let mut seen: Vec<(u8, u64, u64, [u8; 37])> = Vec::new();
+        let mut k = 0u8;
+        while t0.elapsed() < std::time::Duration::from_millis(ms) {
+            let tb = secs();
+            let d = if k == 0 { khttp::date::get_date_now() } else { khttp::date::get_date_now_uncached() };
+            let ta = secs();
+            if !seen.iter().rev().take(8).any(|x| *x == (k, tb, ta, d)) { seen.push((k, tb, ta, d)); }
+            k ^= 1;
+        }
+        seen.iter().map(|(k, tb, ta, d)| format!("{}:{}:{}:{}", if *k == 0 { "c" } else { "u" }, tb, ta, hex(d))).collect::<Vec<_>>().join(",")
+    });
+    h.join().unwrap_or_else(|_| "PANIC".into())
+}
+
+pub fn gen_clock(ctx: &Ctx) {
+    let mut out = Out::new(&ctx.dir, "dateclock");
+    out.rule = "get_date_now (cached) and get_date_now_uncached polled alternately on the real clock for 1.25 s (thorough: 4 x 2.2 s), every call bracketed by two \
+                SystemTime readings; every distinct (before, after, date) triple is checked: the date is the formatted second s for some before-1 <= s <= after. non-trivial = the poll crossed a second boundary".into();
+    let runs: Vec<u64> = if ctx.thorough { vec![2200, 2200, 2200, 2200] } else { vec![1250] };
+    for ms in runs {
+        let case = format!("poll {ms}");
+        let r = run_clock(&case);
+        let crossed = { let mut ds: Vec<&str> = r.split(',').filter_map(|t| t.split(':').nth(3)).collect(); ds.sort(); ds.dedup(); ds.len() >= 2 };
+        out.emit(&case, &r, if crossed { "crossed-a-second" } else { "within-one-second" }, crossed);
+    }
+    out.finish();
+}
